@@ -871,14 +871,16 @@ class LasHeader:
         Leaves/restores the stream position to where it was before the call
         """
         if self.version.minor >= 4:
-            if self.number_of_evlrs > 0 and stream.seekable():
+            # a stream that only offers read() does not say whether it can seek: it cannot
+            seekable = getattr(stream, "seekable", lambda: False)()
+            if self.number_of_evlrs > 0 and seekable:
                 saved_pos = stream.tell()
                 stream.seek(self.start_of_first_evlr, io.SEEK_SET)
                 self.evlrs = VLRList.read_from(
                     stream, self.number_of_evlrs, extended=True
                 )
                 stream.seek(saved_pos)
-            elif self.number_of_evlrs > 0 and not stream.seekable():
+            elif self.number_of_evlrs > 0 and not seekable:
                 self.evlrs = None
             else:
                 self.evlrs = VLRList()
